@@ -129,25 +129,36 @@ def injector_pair(kind, frame, rng_seed):
     col = lambda pos: names[pos] if frame else pos
     probs = {0.0: 0.5}
 
-    def run(data, pr):
-        np.random.seed(rng_seed % (2 ** 32))
+    CLS = {"swap": I.FeatureSwapInjector, "shift": I.FeatureShiftInjector, "labelswap": I.LabelSwapInjector, "labeljoin": I.LabelJoinInjector,
+           "brownian": I.BrownianNoiseInjector, "resample": I.LabelProbabilityInjector, "dirichlet": I.LabelDirichletInjector,
+           "cover": I.FeatureCoverInjector}
+
+    def call(inj, data, pr, col):
         if kind == "swap":
-            return I.FeatureSwapInjector()(data, f, t, col(0), col(1))
+            return inj(data, f, t, col(0), col(1))
         if kind == "shift":
-            return I.FeatureShiftInjector()(data, f, t, col(0), 0.5)
+            return inj(data, f, t, col(0), 0.5)
         if kind == "labelswap":
-            return I.LabelSwapInjector()(data, f, t, col(2), 0.0, 1.0)
+            return inj(data, f, t, col(2), 0.0, 1.0)
         if kind == "labeljoin":
-            return I.LabelJoinInjector()(data, f, t, col(2), 0.0, 1.0, 7.0)
+            return inj(data, f, t, col(2), 0.0, 1.0, 7.0)
         if kind == "brownian":
-            return I.BrownianNoiseInjector()(data, f, t, col(0), 1.0, random_state=3)
-        if kind == "resample":
-            return I.LabelProbabilityInjector()(data, f, t, col(2), pr)
-        if kind == "dirichlet":
-            return I.LabelDirichletInjector()(data, f, t, col(2), pr)
+            return inj(data, f, t, col(0), 1.0, random_state=3)
+        if kind in ("resample", "dirichlet"):
+            return inj(data, f, t, col(2), pr)
         if kind == "cover":
-            return I.FeatureCoverInjector()(data, col(2), 3, random_state=3)
+            return inj(data, col(2), 3, random_state=3)
         raise KeyError(kind)
+
+    def run(data, pr, used=False):
+        inj = CLS[kind]()
+        if used:
+            # the injector object has been used before, on the OTHER container type: what it returns now must not depend on that
+            other = a.copy() if frame else pd.DataFrame(a.copy(), columns=names)
+            np.random.seed((rng_seed + 1) % (2 ** 32))
+            call(inj, other, dict(pr), (lambda pos: pos) if frame else (lambda pos: names[pos]))
+        np.random.seed(rng_seed % (2 ** 32))
+        return call(inj, data, pr, col)
 
     def mk():
         return pd.DataFrame(a.copy(), columns=names) if frame else a.copy()
@@ -160,7 +171,7 @@ def injector_pair(kind, frame, rng_seed):
     out_a = run(mk(), pa)
     caller = mk()
     d0 = digest(caller)
-    out_b = run(caller, pb)
+    out_b = run(caller, pb, used=rng_seed % 3 != 0)
     flags = []
     if digest(caller) != d0:
         flags.append("INPUT MODIFIED")
